@@ -158,10 +158,58 @@ struct Agg {
     all_hashes: BTreeSet<u64>,
     nontrivial_runs: u64,
     found: Vec<Found>,
+    /// Number of violations per signature (the scenarios kept in `found` are capped per signature, so that a frequent
+    /// known finding cannot crowd out a rare new violation).
+    sig_counts: BTreeMap<String, u64>,
     other_property: BTreeMap<String, u64>,
     harness_errors: Vec<String>,
     sample_indices: Vec<u64>,
 }
+
+/// One entry of the regression corpus: a minimised scenario that once exposed a defect (repaired since) or an
+/// independently seeded change. The corpus is executed before the seeded search of its world; it passes on a tree
+/// where the property holds and is judged by the same oracle as every generated run.
+#[derive(Debug, Clone, Serialize, Deserialize)]
+pub struct CorpusEntry {
+    pub world: String,
+    pub scenario: Json,
+    #[serde(default)]
+    pub origin: String,
+}
+
+/// Loads `<root>/corpus/<property>/*.json` for one world, sorted by file name.
+pub fn load_corpus(property: &str, world: &str) -> (Vec<(String, CorpusEntry)>, Vec<String>) {
+    let dir = verif_root().join("corpus").join(property);
+    let mut names = vec![];
+    if let Ok(rd) = std::fs::read_dir(&dir) {
+        for e in rd.flatten() {
+            let n = e.file_name().to_string_lossy().to_string();
+            if n.ends_with(".json") {
+                names.push(n);
+            }
+        }
+    }
+    names.sort();
+    let mut out = vec![];
+    let mut errors = vec![];
+    for n in names {
+        let path = dir.join(&n);
+        match std::fs::read_to_string(&path)
+            .map_err(|e| e.to_string())
+            .and_then(|t| serde_json::from_str::<CorpusEntry>(&t).map_err(|e| e.to_string()))
+        {
+            Ok(c) => {
+                if c.world == world {
+                    out.push((n, c));
+                }
+            }
+            Err(e) => errors.push(format!("corpus file {} unreadable: {e}", path.display())),
+        }
+    }
+    (out, errors)
+}
+
+pub const CORPUS_INDEX_BASE: u64 = 1_000_000_000_000;
 
 fn json_size(j: &Json) -> usize {
     match j {
@@ -276,7 +324,9 @@ fn run_part(
                 }
                 for v in out.violations {
                     if v.property == property {
-                        if local.found.len() < 200 {
+                        let n = local.sig_counts.entry(v.sig.clone()).or_insert(0);
+                        *n += 1;
+                        if *n <= 4 {
                             local.found.push(Found {
                                 index: i,
                                 scenario: scenario.clone(),
@@ -300,6 +350,9 @@ fn run_part(
             a.all_hashes.extend(local.all_hashes);
             a.nontrivial_runs += local.nontrivial_runs;
             a.found.extend(local.found);
+            for (k, v) in local.sig_counts {
+                *a.sig_counts.entry(k).or_insert(0) += v;
+            }
             for (k, v) in local.other_property {
                 *a.other_property.entry(k).or_insert(0) += v;
             }
@@ -348,9 +401,35 @@ pub fn run_check(spec: &CheckSpec, tier: Tier, seed: u64) -> CheckResult {
 
     for part in &spec.parts {
         let pstart = Instant::now();
-        let agg = run_part(part, spec.property, tier, seed, deadline, workers);
-        let wall = pstart.elapsed().as_secs_f64();
+        let mut agg = run_part(part, spec.property, tier, seed, deadline, workers);
         let world = &part.world;
+        // Regression corpus of this world (same oracle, fixed scenarios).
+        let (corpus, corpus_errors) = load_corpus(spec.property, world.name());
+        harness_errors.extend(corpus_errors);
+        let mut corpus_runs = 0u64;
+        for (k, (name, entry)) in corpus.iter().enumerate() {
+            let out = execute_isolated(world, &entry.scenario, false);
+            corpus_runs += 1;
+            agg.steps += out.steps;
+            agg.decisions += out.decisions;
+            agg.sim_ms += out.sim_time_ms;
+            if let Some(e) = out.harness_error {
+                harness_errors.push(format!("corpus {name}: {e}"));
+            }
+            for v in out.violations {
+                if v.property == spec.property {
+                    *agg.sig_counts.entry(v.sig.clone()).or_insert(0) += 1;
+                    agg.found.push(Found {
+                        index: CORPUS_INDEX_BASE + k as u64,
+                        scenario: entry.scenario.clone(),
+                        violation: v,
+                    });
+                } else {
+                    *agg.other_property.entry(v.sig.clone()).or_insert(0) += 1;
+                }
+            }
+        }
+        let wall = pstart.elapsed().as_secs_f64();
         total_runs += agg.runs;
         total_distinct += agg.nontrivial_hashes.len() as u64;
         harness_errors.extend(agg.harness_errors.iter().cloned());
@@ -376,9 +455,8 @@ pub fn run_check(spec: &CheckSpec, tier: Tier, seed: u64) -> CheckResult {
 
         // Violations: group by signature.
         let mut by_sig: BTreeMap<String, &Found> = BTreeMap::new();
-        let mut sig_counts: BTreeMap<String, u64> = BTreeMap::new();
+        let sig_counts: BTreeMap<String, u64> = agg.sig_counts.clone();
         for f in &agg.found {
-            *sig_counts.entry(f.violation.sig.clone()).or_insert(0) += 1;
             by_sig.entry(f.violation.sig.clone()).or_insert(f);
         }
         let mut reported = 0;
@@ -452,9 +530,9 @@ pub fn run_check(spec: &CheckSpec, tier: Tier, seed: u64) -> CheckResult {
         }
         let runs_per_hour = if wall > 0.0 { agg.runs as f64 / wall * 3600.0 } else { 0.0 };
         println!(
-            "  world={} runs={} steps={} nontrivial_runs={} distinct_nontrivial={} distinct_all={} violations_found={} wall={:.1}s ({:.0} runs/h)",
-            world.name(), agg.runs, agg.steps, agg.nontrivial_runs, agg.nontrivial_hashes.len(),
-            agg.all_hashes.len(), agg.found.len(), wall, runs_per_hour
+            "  world={} runs={} corpus={} steps={} nontrivial_runs={} distinct_nontrivial={} distinct_all={} violations_found={} wall={:.1}s ({:.0} runs/h)",
+            world.name(), agg.runs, corpus_runs, agg.steps, agg.nontrivial_runs, agg.nontrivial_hashes.len(),
+            agg.all_hashes.len(), agg.sig_counts.values().sum::<u64>(), wall, runs_per_hour
         );
         if !agg.other_property.is_empty() {
             println!("  note: violations of other properties seen in these runs (reported by their own checks): {:?}", agg.other_property);
@@ -463,6 +541,7 @@ pub fn run_check(spec: &CheckSpec, tier: Tier, seed: u64) -> CheckResult {
             "world": world.name(),
             "runs": agg.runs,
             "seeds": agg.runs,
+            "corpus_scenarios": corpus_runs,
             "steps": agg.steps,
             "scheduling_decisions": agg.decisions,
             "simulated_seconds": agg.sim_ms as f64 / 1000.0,
